@@ -73,6 +73,14 @@ func main() {
 			gp := drawSpec(r, fmt.Sprintf("p%03d", i), specBias{nullableLoops: 55, leftRec: 12, states: 45, preds: 60, actions: 80, throws: 30, optimized: 30, display: 10, unicode: 40})
 			fmt.Printf("=== %s %v\n%s\n", gp.Name, gp.Flags, gp.Text)
 		}
+	case "C05":
+		code := runC05(tierArg())
+		cleanupAll()
+		os.Exit(code)
+	case "C11":
+		code := runC11(tierArg())
+		cleanupAll()
+		os.Exit(code)
 	case "C16":
 		code := runC16(tierArg())
 		cleanupAll()
